@@ -367,6 +367,54 @@ SCENARIOS = {"observer": sc_observer}
 replay = generic_replay(SCENARIOS)
 
 
+def validate_model(rep):
+    """Encoding validation (thorough tier): for every observer kind, mode/handle combination and EVERY crash point
+    the real process is killed at that operation and the file on disk is compared with what the file-state model
+    predicted -- intact for log and trajectory at every point; for the restart file, broken exactly at the crash
+    points the symbolic run flagged.  A disagreement means the model (not quansino) is wrong: harness error."""
+    import re
+    from concurrent.futures import ThreadPoolExecutor
+
+    flagged = {}
+    for c in rep.candidates:
+        m = re.search(r"crash_after_op=(\d+)", c.get("info") or "")
+        if m and c.get("label", "").startswith("after-a-crash"):
+            flagged.setdefault(c["scenario"], set()).add(int(m.group(1)))
+    jobs = []
+    for kind in ("logger", "trajectory", "restart"):
+        for mode, app in (("w", False), ("a", True), ("a", False)):
+            nops = len(pattern(kind, mode)[2])
+            tag = f"observer[kind={kind},mode={mode},append_handle={app}]"
+            for c in range(nops + 1):
+                jobs.append((kind, mode, app, c, nops, tag))
+
+    def one(job):
+        kind, mode, app, c, nops, tag = job
+        V = symx.Replay({"symbols": {"crash_after_op": c}, "draws": []})
+        try:
+            _real_crash(V, kind, mode, app, "steady")
+        except Exception as ex:  # noqa: BLE001
+            return job, None, f"{type(ex).__name__}: {ex}"
+        return job, set(V.failed), None
+
+    agree = disagree = 0
+    with ThreadPoolExecutor(max_workers=8) as ex:
+        for job, failed, err in ex.map(one, jobs):
+            kind, mode, app, c, nops, tag = job
+            if err:
+                rep.harness_errors.append(f"model validation {tag} crash_after_op={c}: {err}")
+                continue
+            real_broken = any(l.startswith("after-a-crash") for l in failed)
+            model_broken = c in flagged.get(tag, set()) and c < nops
+            if real_broken == model_broken:
+                agree += 1
+            else:
+                disagree += 1
+                rep.harness_errors.append(f"file-state model disagrees with the real file: {tag} crash_after_op={c}: model says {'broken' if model_broken else 'intact'}, the killed process left it {'broken' if real_broken else 'intact'}")
+    rep.encoding_validations += agree + disagree
+    rep.extra["model_validation"] = {"crash points killed for real": agree + disagree, "agree": agree, "disagree": disagree}
+
+
 def run(rep: Report):
     tier = rep.tier
     opts = {"prove_timeout_ms": 10000, "fork_timeout_ms": 2000, "seed": rep.seed, "scenario_wall_s": 240 if tier == "quick" else 900}
@@ -380,6 +428,8 @@ def run(rep: Report):
         for st in ("to-empty", "from-empty", "grow"):
             plan.append(("observer", dict(kind=k, mode="a", append_handle=True, state=st), ("complete",)))
     run_plan(rep, plan, SCENARIOS, opts)
+    if tier == "thorough":
+        validate_model(rep)
     rep.bounds = {"calls": "two consecutive calls j-1, j from an arbitrary well-formed file state (inductive)", "document lengths": "symbolic positive integers per write, independent for the two calls (growing and shrinking)", "crash point": "after any operation of call j", "persisted prefix of the buffer": "symbolic", "system sizes at the two calls": "3->3, 1->0 (empty box), 0->1, 1->3 atoms"}
     rep.assumptions = ["crash = process death: flushed bytes are durable, buffered bytes are lost except a prefix the I/O library may already have pushed", "seek and truncate flush the buffer first (Python io semantics)", "operation pattern taken from a real observer call on the current source; contents of a complete document are C07/C08's subject"]
     rep.stubs = ["RecFile recording stream", "FileModel"]
